@@ -165,8 +165,15 @@ def main():
     print("jobs:", len(jobs))
     bad = 0
     tally = {}
-    with ProcessPoolExecutor(j, max_tasks_per_child=12) as ex:
-        for kind, name, status, detail in ex.map(job, jobs, chunksize=1):
+    def batches():
+        # a fresh pool for every batch: worker processes do not live long enough to grow (max_tasks_per_child hangs on python 3.12.1)
+        step = j * 8
+        for k in range(0, len(jobs), step):
+            with ProcessPoolExecutor(j) as ex:
+                for item in ex.map(job, jobs[k:k + step], chunksize=1):
+                    yield item
+    if True:
+        for kind, name, status, detail in batches():
             tally[status] = tally.get(status, 0) + 1
             if status == "ok" and not (verbose and detail):
                 continue
